@@ -277,6 +277,42 @@ def oracle_program_brute(job):
     return {"values": {g: [mp.nstr(v, 45) for v in vs] for g, vs in vals.items()}, "err": "0"}
 
 
+def oracle_program_cond_keep(job):
+    """shape T5b: c = Bernoulli(p); x = D; if c == 1: y = f(x) end; s = s + y.  y_n = f(x_n) with probability p, else y_{n-1}
+    (independent of the past):  E(y_n^k) = p m_k + (1-p) E(y_{n-1}^k),  E(s_n) = E(s_{n-1}) + E(y_n)."""
+    mp = _mp()
+    prog, goals, nmax = job["prog"], job["goals"], job["nmax"]
+    body = prog["body"]
+    p = _q(mp, body[0][3][0])
+    fam, params = body[1][2], body[1][3]
+    f = {"Sin": mp.sin, "Cos": mp.cos, "Exp": mp.exp}[body[2][3][0][2]]
+    E = expectation(fam, params)
+    errs = mp.mpf(0)
+    mk = {}
+    for k in (1, 2):
+        v, e = E(lambda x, k=k: f(x) ** k)
+        mk[k] = v
+        errs = max(errs, abs(e))
+    y0, s0 = _q(mp, prog["init"]["y"]), _q(mp, prog["init"]["s"])
+    ey = {1: [y0], 2: [y0 ** 2]}
+    es = [s0]
+    for n in range(1, nmax + 1):
+        for k in (1, 2):
+            ey[k].append(p * mk[k] + (1 - p) * ey[k][-1])
+        es.append(es[-1] + ey[1][-1])
+    vals = {}
+    for g, mon in goals.items():
+        if mon == {"y": 1}:
+            vals[g] = ey[1]
+        elif mon == {"y": 2}:
+            vals[g] = ey[2]
+        elif mon == {"s": 1}:
+            vals[g] = es
+        else:
+            raise ValueError("goal outside the shape")
+    return {"values": {g: [mp.nstr(v, 45) for v in vs] for g, vs in vals.items()}, "err": mp.nstr(errs, 5)}
+
+
 def oracle_program(job):
     """E[goal monomial] at n = 0..nmax, independent of Polar.  Iteration-local variables depend only
     on the current iteration's draws; the accumulator acc' = A*acc + U with A, U local; so
@@ -285,6 +321,8 @@ def oracle_program(job):
     continuous draw)."""
     if job.get("acc") == "__brute__":
         return oracle_program_brute(job)
+    if job.get("acc") == "__cond_keep__":
+        return oracle_program_cond_keep(job)
     mp = _mp()
     prog, goals, nmax = job["prog"], job["goals"], job["nmax"]
     init = {v: _q(mp, x) for v, x in prog["init"].items()}
@@ -587,6 +625,13 @@ def gen_programs(ctx):
         if not (fA == "Exp" and els[0][0] == "func"):
             gl.append({"y": 2})
         out.append(("T5-branch", {"init": init, "body": body}, None, goals_of(gl), True))
+    # T5b functional assignment under a condition WITHOUT else (the variable keeps its previous value otherwise), and under a loop guard
+    for d in [("Normal", ["0", "1"]), ("Bernoulli", ["1/3"]), ("Uniform", ["0", "1"])][:ctx.pick(2, 3)]:
+        fA = rng.choice(["Sin", "Cos"])
+        body = [["draw", "c", "Bernoulli", ["1/4"]], ["draw", "x", d[0], d[1]], ["if", "c", 1, [["func", "y", fA, "x"]], []],
+                ["poly", "s", P(("1", {"s": 1}), ("1", {"y": 1}))]]
+        out.append(("T5b-branch-no-else", {"init": {"c": "0", "x": "0", "y": "1/2", "s": "0"}, "body": body}, "__cond_keep__",
+                    goals_of([{"y": 1}, {"y": 2}, {"s": 1}]), True))
     # T6 reference to the draw
     for _ in range(n_each):
         d = rng.choice(anyd)
